@@ -520,6 +520,31 @@ func runBind(carrier string, f []string) (ans string, oracle []string) {
 		if !ok && cv.calls > 1 {
 			oracle = append(oracle, fmt.Sprintf("C18 validated: failed bind through %s called the validator %d times", api, cv.calls))
 		}
+		// the configured validator is asked about WHATEVER was bound: a pointer to a pointer to the struct (the decoder
+		// allocates), a map, a slice - "nothing to check" is the validator's decision, not the binder's
+		if strings.HasPrefix(api, "json.") {
+			var pp *bT
+			var mp map[string]interface{}
+			var sl []interface{}
+			var anyv interface{}
+			for _, tg := range []struct {
+				name string
+				ptr  interface{}
+			}{{"**struct", &pp}, {"*map", &mp}, {"*slice", &sl}, {"*interface", &anyv}} {
+				cv2 := setValidator(val)
+				err := func() (err error) {
+					defer func() {
+						if v := recover(); v != nil {
+							err = fmt.Errorf("panic: %v", v)
+						}
+					}()
+					return binding.JSON.BindBytes([]byte(body), tg.ptr)
+				}()
+				if err == nil && cv2 != nil && cv2.calls != 1 {
+					oracle = append(oracle, fmt.Sprintf("C18 validated: JSON body %q bound into a %s succeeded, the enabled validator was called %d times (want exactly 1)", body, tg.name, cv2.calls))
+				}
+			}
+		}
 	}
 	return
 }
